@@ -100,9 +100,13 @@ def run(ctx):
     K = (rng.integers(-64, 65, size=(n, units)) / 16.0).astype(np.float32)
     B = (rng.integers(-64, 65, size=(units,)) / 16.0).astype(np.float32)
     X = (rng.integers(-80, 81, size=(6, n)) / 16.0).astype(np.float32)
-    for i in range(n):      # some points exactly on the bounds
-      X[0, i] = float(lo[i])
+    for i in range(n):      # some points exactly on the bounds, and some very far beyond them (clipping must not
+      X[0, i] = float(lo[i])  # depend on how far outside the input lies)
       X[1, i] = float(hi[i])
+      if hasHi[i]:
+        X[2, i] = float(2 ** 20 if j % 2 else 2 ** 26)
+      if hasLo[i]:
+        X[3, i] = -float(2 ** 20 if j % 2 else 2 ** 26)
     out = evaluate(tf, tfl, c, K, B, X)
     events += events_for(c, K, B, X, out, ctx, "random")
     ctx.nontrivial.add((json.dumps(c, sort_keys=True)))
